@@ -694,7 +694,7 @@ def cases(tier, seed):
         for m in range(-1, 8):
             if N <= 4 or thorough:
                 if thorough and N <= 4:
-                    add('simple', ['gnm', N, m], mode='hash', horizon=120, max_execs=200000)
+                    add('simple', ['gnm', N, m], mode='hash', horizon=120, max_execs=40000)
                 else:   # networkx sampler: deviation bound around a mixed default schedule
                     add('simple', ['gnm', N, m], mode='plain', max_dev=2 if not thorough else 3,
                         max_execs=20000, horizon=300, default='mix', default_seed=seed)
@@ -749,10 +749,10 @@ def cases(tier, seed):
         for k in range(-1, missing + 2):
             # the sampler retries 10*k times (2 draws each) before its dense
             # fallback: the horizon must exceed 20*k+k
-            if k > (2 if not thorough else 4) and k <= missing:
+            if k > (2 if not thorough else 3) and k <= missing:
                 continue
             add('simple', b + ['addedges', k], base=bd, unmeetable=(k > missing), mode='hash',
-                horizon=30 * max(k, 1) + 20, max_execs=200000)
+                horizon=30 * max(k, 1) + 20, max_execs=60000)
         for k in range(-1, m + 2):
             add('simple', b + ['splitedges', k], base=bd, unmeetable=(k > m), mode='plain')
         add('simple', b + ['plantclique'], base=bd, unmeetable=True)
@@ -825,10 +825,10 @@ def cases(tier, seed):
                 add('bipartite', b + ['plantbiclique', ka, kb], base=bd,
                     unmeetable=(ka > L or kb > Rr), mode='plain')
         for k in range(-1, missing + 2):
-            if k > (2 if not thorough else 4) and k <= missing:
+            if k > (2 if not thorough else 3) and k <= missing:
                 continue
             add('bipartite', b + ['addedges', k], base=bd, unmeetable=(k > missing), mode='hash',
-                horizon=30 * max(k, 1) + 20, max_execs=200000)
+                horizon=30 * max(k, 1) + 20, max_execs=60000)
         add('bipartite', b + ['plantbiclique', 1], base=bd, unmeetable=True)
         add('bipartite', b + ['plantclique', 1], base=bd, unmeetable=True)
         add('bipartite', b + ['splitedges', 1], base=bd, unmeetable=True)
